@@ -6,8 +6,10 @@ import os
 
 def record(ck, nfiles, nprog, tag='sys', mode=None, seedoff=0):
     files = [os.path.join(ck.work, '%s_%02d.ndjson' % (tag, i)) for i in range(nfiles)]
-    ck.run_jobs(['%s --seed %d --n %d %s --out %s' % (ck.bin('sys_rec'), ck.seed * 7919 + i + seedoff, nprog,
-                                                      ('--mode ' + mode) if mode else '', f)
+    # every second file is recorded through the C binding (teakra_c.h: Teakra_Run, Teakra_SendData, ...): same programs,
+    # same host calls, same specification -- the wrappers are bound as well
+    ck.run_jobs(['%s --seed %d --n %d %s %s --out %s' % (ck.bin('sys_rec'), ck.seed * 7919 + i + seedoff, nprog,
+                                                         ('--mode ' + mode) if mode else '', '--api c' if i % 2 else '', f)
                  for i, f in enumerate(files)], timeout=900)
     return files
 
@@ -21,7 +23,8 @@ SYS_ASSUMPTIONS = [
     'System.tla composes the frozen TLA+ instruction semantics with TimerOps, the ICU, the MIU registers, both audio ports '
     '(Btdmp), both mailbox blocks (Apbp), the DMA engine and the AHB bridge (operators of Dma.tla / Ahbm.tla; external '
     'memory = the recorder\'s callbacks, every external access compared in order) as teakra.cpp wires them, plus the host '
-    'API between slices; every offset mmio.cpp binds is modelled, everything else is a plain storage cell',
+    'API between slices (every second trace file goes through the C binding of that API); every offset mmio.cpp binds is '
+    'modelled, everything else is a plain storage cell',
     'register effects are applied after the core part of the cycle; a DMA transfer whose range is also touched later in '
     'the same cycle (return address pushed by an interrupt entered in that cycle) is declined (outcome dma-grain), not '
     'guessed; DSP-side DMA cursors outside the array are the known finding oob:dma_cursor (outcome oob)',
